@@ -553,7 +553,18 @@ PROPS = {
           "29 message kinds (bank, lockup, gamm balancer+stableswap, poolmanager swaps/split routes, CL pools/positions, tokenfactory, incentives gauges, "
           "staking/distribution, txfees fee tokens, protorev base denoms), ~8% low-gas txs (out of gas in ante / in the message), bogus and unauthorised "
           "messages; block gaps 1ns..3 days so hour/day/week epochs tick (mint with reduction period 2, incentives distribution, twap pruning, protorev); "
-          "export after a random block. non-trivial = block with >=1 tx / non-empty document; distinct = distinct op lines",
+          "export after a random block. Extension: 32 message kinds incl. tokenfactory MsgForceTransfer / MsgBurn(from) / MsgMint(to) naming users, module accounts that exist and module accounts "
+          "NOT created yet (the app creates most lazily; counters state.module-accounts-not-created-yet.*); before a block is delivered EVERY transaction of it is executed 8 more times "
+          "on fresh throw-away branches of node A's committed state through the real message handlers: error, gas consumed (also at an out-of-gas abort), ordered events and the complete "
+          "write set (recording multistore; x/auth account numbers included) must agree (nondeterminism:gas|result|events|raw-store:<msg kind>, nondeterminism:account-numbers); the same 8 "
+          "executions for the keeper entry points behind sorted map ranges that no message reaches (gamm UpdateMigrationRecords, pool-incentives UpdateDistrRecords, lockup InitGenesis "
+          "with > fan-out durations per denomination AND per synthetic denomination) and 16 calls of the pure ones (DisjointArrays, partialord TotalOrdering, IsJsonSuperset). At every "
+          "export/import point every raw KV store of the imported node is compared with the exporting node key class by key class (export-import:derived-store-differs:<store>:<class>:<kind>; "
+          "the classes the unchanged tree rebuilds differently are listed with their finding in derived_store_test.go and counted), the x/lockup accumulation store by meaning (decoded "
+          "leaves of every denomination incl. synthetic ones against a from-scratch sum over the imported lock records, against the exporting chain, keeper answers against leaves); module "
+          "engines: lockup (keeper tail with CLUSTERS of >=2 synthetic locks of one synthetic denomination at one synthetic duration on locks of other durations, then exportimport), "
+          "superfluid (exportimport also runs x/lockup through export -> wipe -> import), incentives (reference stores and by-denom index compared as membership), twap/cl/superfluid (raw store byte for byte). "
+          "non-trivial = block with >=1 tx / non-empty document; distinct = distinct op lines",
   "trusted_base": ["cosmos-sdk baseapp/IAVL/cachekv (cachekv flushes in sorted key order: the committed hash depends on the set of writes of a block, not their order)",
                    "T1 map-range classifier tools/extract/gen_det.go: syntactic type resolution (cross-checked once against go/types: 37 of 582 range statements are over maps, "
                    "identical sets) and syntactic body classes sorted/commutative/readonly; everything else must be in the hand-audited table of Props/C19",
